@@ -261,6 +261,9 @@ def main(argv=None):
     import warnings
 
     warnings.filterwarnings("ignore")
+    import logging
+
+    logging.disable(logging.CRITICAL)  # pyxel logs every exception it re-raises; the harness inspects the exceptions themselves
     import pyxel  # noqa: F401  (import before fork: shared by the workers)
 
     mod = _load(pid)
